@@ -8,6 +8,9 @@
     responses, requests and notifications whose params do not fit their method), closed by shutdown + exit; each is piped to a fresh server and the frames and the exit status
     must equal the specification's reply queue.
  3. Random interleavings up to length 60 are recorded and validated by LspTrace.tla (impl -> spec).
+ 4. TextSync.tla: every (document over 1- to 4-byte characters and line feeds, range in UTF-16 positions, inserted text) is
+    sent as a didChange in the form the server's capabilities ask for (whole text / range); the semantic tokens afterwards
+    must be those of a fresh server for the spliced text.
 """
 import os
 import sys
@@ -17,6 +20,7 @@ import doctexts  # noqa: E402
 import lspcheck  # noqa: E402
 import lspdrv  # noqa: E402
 import lsptrace  # noqa: E402
+import textsync  # noqa: E402
 import vlib  # noqa: E402
 
 ALL_KINDS = ("open", "open", "change0", "change1", "change1", "change2", "open_nf", "semtok", "semtok", "unkreq",
@@ -49,8 +53,8 @@ def main():
                             "wall_s": round(r["wall_s"], 1)})
     replays = r["replay"]
     if tier == "quick":
-        # every sequence of length <= 2 plus a deterministic 1/3 slice of length 3
-        replays = [x for i, x in enumerate(replays) if len(x["hist"]) <= 4 or i % 3 == (vlib.SEED % 3)]
+        # every sequence of length <= 2 plus a deterministic 1/8 slice of length 3
+        replays = [x for i, x in enumerate(replays) if len(x["hist"]) <= 4 or i % 8 == (vlib.SEED % 8)]
     tables = lspcheck.Tables(texts)
     dk, tk = lspcheck.needed_keys(replays)
     tables.fill(dk, tk)
@@ -74,8 +78,10 @@ def main():
     n = 200 if tier == "quick" else 20000
     t5 = lspcheck.Tables(doctexts.TEXTS)
     lsptrace.random_histories(rep, cov, t5, doctexts.TEXTS, n, maxlen=60, seed=vlib.SEED + 12, kinds=ALL_KINDS, prop="C12")
+    # what a document is after a didChange, in the synchronisation kind the server advertises (TextSync.tla)
+    textsync.run(rep, cov, tier)
     cov["exhaustive"] = tier != "quick"
-    cov["rule"] = ("all message sequences up to length 3 over 43 message instances (quick: all of length <= 2 + 1/3 of length 3), "
+    cov["rule"] = ("all message sequences up to length 3 over 43 message instances (quick: all of length <= 2 + 1/8 of length 3), "
                    "+ %d random interleavings up to length 60, each followed by shutdown and exit" % n)
     return rep.finish("model_checking", cov, assumptions=[
         "well-formed JSON-RPC only (every message is a request, response or notification object); params that do not fit an implemented method are part of the alphabet (badreq / badnotif)",
